@@ -297,6 +297,7 @@ func c13Account(run *vf.Run, p c13Plan, r *c13Result) {
 
 // c13Exec is the state of one running case: model, etcd client, the targets the script refers to.
 type c13Exec struct {
+	sibling bool // a second, non-selecting task shares the MetaOp and has started the watch already
 	plan   c13Plan
 	cat    *catalog.Catalog
 	box    *etcdbox.Box
@@ -480,6 +481,33 @@ func c13Case(run *vf.Run, box *etcdbox.Box, plan c13Plan, attempt int) *c13Resul
 		}
 		return false, selected(db.Name, info.GetSchema().GetName())
 	}
+	// every second case: a second task on the same MetaOp (as two tasks of one target share it in the server) that
+	// selects nothing; it is up and subscribed before the task under observation starts
+	var rec2 *recorder
+	if plan.Idx%2 == 1 {
+		rec2 = newRecorder()
+		none := func(db *model.DatabaseInfo, info *pb.CollectionInfo) (bool, bool) { return false, false }
+		rd2, err := reader.NewCollectionReader("task-c13-sibling", rec2, op, nil, nil, none, config.ReaderConfig{Retry: retrySettings})
+		if err != nil {
+			res.inconclusive = "NewCollectionReader (sibling): " + err.Error()
+			return res
+		}
+		sret := make(chan struct{})
+		go func() { defer close(sret); rd2.StartRead(ctx) }()
+		select {
+		case <-sret:
+		case <-time.After(150 * time.Second):
+			res.inconclusive = "sibling StartRead did not return (watchdog)"
+			return res
+		}
+		defer func() {
+			qctx, qcancel := context.WithTimeout(context.Background(), 20*time.Second)
+			rd2.QuitRead(qctx)
+			qcancel()
+		}()
+		res.counts["cases_with_sibling_task"]++
+		x.sibling = true
+	}
 	rd, err := reader.NewCollectionReader("task-c13", rec, dec, nil, nil, shouldRead, config.ReaderConfig{Retry: retrySettings})
 	if err != nil {
 		res.inconclusive = "NewCollectionReader: " + err.Error()
@@ -561,6 +589,12 @@ func c13Case(run *vf.Run, box *etcdbox.Box, plan c13Plan, attempt int) *c13Resul
 		}
 	}
 	cat.SetStep(nBoundaries)
+	if rec2 != nil {
+		// ordinary selected collections created by watch events just before the sentinel: etcd delivers events in
+		// revision order, so once the sentinel has been reported and the callback pool is idle they are decided
+		x.createColl(1, "zz_before_sentinel_1", true)
+		x.createColl(1, "zz_before_sentinel_2", true)
+	}
 	x.sentC = x.createColl(1, "zz_sentinel", true)
 	if !waitFor("collection", func(e recEvent) bool { return e.Call == "StartReadCollection" && e.Coll == x.sentC.ID }) {
 		return res
@@ -607,6 +641,14 @@ func c13Case(run *vf.Run, box *etcdbox.Box, plan c13Plan, attempt int) *c13Resul
 	close(release)
 
 	c13Oracle(res, plan, x, dec, rec.snapshot(), mkReplay)
+	if rec2 != nil {
+		for _, e := range rec2.snapshot() {
+			if e.Call == "StartReadCollection" || e.Call == "AddPartition" {
+				res.violations = append(res.violations, vf.Violation{Key: "C13/object-started-by-a-task-that-does-not-select-it", Desc: fmt.Sprintf("case %d: the sibling task (selects nothing) received %s for collection %d partition %d", plan.Idx, e.Call, e.Coll, e.Part), Replay: mkReplay(nil)})
+				break
+			}
+		}
+	}
 	qctx, qcancel := context.WithTimeout(ctx, 20*time.Second)
 	rd.QuitRead(qctx)
 	qcancel()
@@ -778,7 +820,9 @@ func c13Oracle(res *c13Result, plan c13Plan, x *c13Exec, dec *stepOp, calls []re
 					}
 					continue
 				}
-				if started && ss < ds {
+				// (with a sibling task the watch is already running during this task's listing: an incarnation that was
+				// the live one when its watch event arrived is legitimately started before the listing supersedes it)
+				if started && ss < ds && !x.sibling {
 					viol("C13/older-incarnation-started-before-recorded-as-dropped", desc+fmt.Sprintf(": StartReadCollection (call #%d) precedes AddDroppedCollection (call #%d)", ss, ds), nil)
 				}
 			}
